@@ -16,6 +16,14 @@ the DB files excluded), with a record of every instrumented action that ran.  Th
 `list -s --all -p`, `info T` for every task and an immediately following `doit run --continue`
 with a recording reporter (which also keeps the Task objects the dispatcher worked on).
 
+Ignore mark + checker switch (ignore_switch_scripted, every seed, the three backends; ignore_switch_tail on random histories):
+`run; ignore t; SetChecker <the other one>; Ask <ONE status query>` where step `Ask` is a single `list -s ...` / `info T`
+between the two snapshots, immediately followed by the run the letters / the verdict are compared with.  md5 -> timestamp and
+timestamp -> md5; the query about the ignored task, about ANOTHER task, about everything, about the sub-tasks of an ignored
+group, about one ignored sub-task.  `run` tests the ignore mark before anything else, so the record of an ignored task is never
+part of the documented invalidation: the frame oracle does not accept its removal (shape readonly-removed-ignore-mark; the dbm
+backend writes the removal through at once), nor the removal of a record of a task the command was not asked about.
+
 Worlds with chains / trees of calc_dep tasks (shape['chain']; chain_scripted, gen_chain_history): calc tasks K1..K4 whose
 action returns -- and so saves -- {'file_dep': [...], 'calc_dep': [names], 'task_dep': [names]} (any subset of the keys),
 consumers A, B declaring calc_dep on some of them, plain tasks S1, S2 that only occur as contributed task_dep.  Depth 1-3
@@ -27,7 +35,7 @@ scripted shapes run on the three backends (quick), all of them in the thorough t
 Independent oracles (out.violations; no use of the model):
   * no task action and no clean action without a `dryrun` parameter ran; file tree identical;
     logical DB content identical -- or identical minus tasks whose stored 'checker:' differs from the
-    configured checker (the documented invalidation);
+    configured checker (the documented invalidation), that do NOT carry the ignore mark, and that the command was asked about;
   * for every task whose dependencies (task_dep, setup, calc_dep) were all skipped up-to-date by the
     run: letter of `list -s` == verdict of `info` == what the run did (R executed, U skipped
     up-to-date, I skipped ignored, E DependencyError while checking);
@@ -922,15 +930,33 @@ class Runner:
             self.violation('`%s` altered the file system: %s' % (label, [d[0] for d in diff][:6]), 'readonly-altered-fs', dict(cmd=label))
         if recs1 != recs0:
             cur = CK_NAME[w.ck]
-            foreign = [n for n, r in recs0.items() if r.get('checker:') and r.get('checker:') != cur]
+            # the documented invalidation: the record of a task whose state get_status looked at and that was saved by another
+            # checker.  An IGNORED task is never checked (`run` skips it before anything else and leaves its record -- with the
+            # ignore mark -- alone), and a command that names its tasks (`info T`, `list -s T..` without --all) checks only these
+            asked = None
+            if args[0] == 'info':
+                pos_ = [a for a in args[1:] if a != '--no-status']
+                asked = set(pos_) if len(pos_) == 1 else None
+            elif args[0] == 'list':
+                o_ = parse_list_args(args)
+                asked = set(o_['pos']) if o_['pos'] and not o_['all'] else None
+            foreign = [n for n, r in recs0.items() if r.get('checker:') and r.get('checker:') != cur and not r.get('ignore:')
+                       and (asked is None or n in asked)]
             allowed = args[0] in ('list', 'info')
             ok = allowed and all((n in recs1 and recs1[n] == r) or (n in foreign and n not in recs1) for n, r in recs0.items()) \
                 and all(n in recs0 for n in recs1)
+            lost_marks = sorted(n for n, r in recs0.items() if r.get('ignore:') and not (recs1.get(n) or {}).get('ignore:'))
             if ok:
                 out.count('db-invalidated-by-checker-change')
+            elif allowed and lost_marks:
+                self.violation('`%s` removed the ignore mark of %s from the dependency DB (%s backend): the next `run` executes a task the user '
+                               'asked to ignore' % (label, lost_marks, w.backend),
+                               'readonly-removed-ignore-mark', dict(cmd=label, before=sorted(recs0), after=sorted(recs1)))
             else:
                 self.violation('`%s` altered the dependency DB (beyond the documented checker-change invalidation)' % label,
                                'readonly-altered-db', dict(cmd=label, before=sorted(recs0), after=sorted(recs1)))
+        if args[0] in ('list', 'info') and any(r.get('ignore:') and r.get('checker:') and r.get('checker:') != CK_NAME[w.ck] for r in recs0.values()):
+            out.count('query-with-ignored-record-of-other-checker:' + args[0])
         # --- correspondence
         parsed = None
         if args[0] == 'list':
@@ -1015,20 +1041,27 @@ class Runner:
             return                    # `run` rejects this dodo file (dangling task_dep): nothing to compare with
         # verdicts and reasons of `info` for every task, then the letters, then -- immediately -- the run
         tasks = w.loaded()
-        infos, truths, info_recs, attrs = {}, {}, {}, {}
-        names = [t.name for t in tasks]
-        bytask = {t.name: t for t in tasks}
-        for n in names:
-            rc, txt, parsed, recs0, _ = self.readonly(['info', n])
-            infos[n] = parsed
-            attrs[n] = self.last_attrs
-            t = bytask[n]
-            # what the dispatcher merges into the task before get_status: what its (up-to-date) calc_dep tasks saved, and
-            # the calc_dep tasks these values name, and so on
-            merged, calc_all, _ = calc_closure(w, recs0, tasks, t)
-            info_recs[n] = {x: recs0.get(x) for x in [n] + sorted(calc_all)}
-            truths[n] = true_reasons(w, t, recs0.get(n), merged)     # the facts at the moment `info` was asked
+        got = dict(infos={}, truths={}, info_recs={}, attrs={})
+        for t in tasks:
+            self.ask_info(tasks, t, got)
         rc, txt, lst, _, _ = self.readonly(['list', '-s', '--all', '-p'])
+        return self.run_and_compare(tasks, got, self.letters_of(lst), None)
+
+    def ask_info(self, tasks, t, got, extra=()):
+        """`info T` with its verdict, its reasons, the facts at that moment and the records the verdict depends on"""
+        w, n = self.w, t.name
+        rc, txt, parsed, recs0, _ = self.readonly(['info'] + list(extra) + [n])
+        got['infos'][n] = parsed
+        got['attrs'][n] = self.last_attrs
+        # what the dispatcher merges into the task before get_status: what its (up-to-date) calc_dep tasks saved, and
+        # the calc_dep tasks these values name, and so on
+        merged, calc_all, _ = calc_closure(w, recs0, tasks, t)
+        got['info_recs'][n] = {x: recs0.get(x) for x in [n] + sorted(calc_all)}
+        got['truths'][n] = true_reasons(w, t, recs0.get(n), merged)     # the facts at the moment `info` was asked
+
+    @staticmethod
+    def letters_of(lst):
+        """task name -> letter code, from the encoded output of a `list -s` command"""
         letters = {}
         if lst and lst[0] == 0:
             body = lst[1:lst.index(-7)]
@@ -1041,6 +1074,31 @@ class Runner:
                     i += 2
                 else:
                     i += 1
+        return letters
+
+    def ask(self, args):
+        """ONE status query -- `list -s ...` or `info T` -- between two snapshots, and immediately the run: every letter /
+        the verdict shown against what the run does with that task (no other read-only command in between)"""
+        w = self.w
+        tasks = w.loaded()
+        bytask = {t.name: t for t in tasks}
+        got = dict(infos={}, truths={}, info_recs={}, attrs={})
+        letters = {}
+        self.out.count('ask:' + ' '.join(a for a in args if a.startswith('-') or a in ('list', 'info')))
+        if args[0] == 'info':
+            self.ask_info(tasks, bytask[args[-1]], got, extra=args[1:-1])
+        else:
+            rc, txt, lst, _, _ = self.readonly(list(args))
+            letters = self.letters_of(lst)
+        return self.run_and_compare(tasks, got, letters, set(letters))
+
+    def run_and_compare(self, tasks, got, letters, shown):
+        """`doit run --continue` right now, and what it does with each task against the letters / verdicts / reasons / attribute
+        listings obtained just before.  `shown`: the tasks `list` was asked about (None: all of them)"""
+        w, out = self.w, self.out
+        infos, truths, info_recs, attrs = got['infos'], got['truths'], got['info_recs'], got['attrs']
+        names = [t.name for t in tasks]
+        bytask = {t.name: t for t in tasks}
         # state for the model's run_decision
         recs_run = w.db_records()
         st = State(w, recs_run, tasks)
@@ -1067,7 +1125,7 @@ class Runner:
                 outcome[n] = 6            # not reached
         # the reasons `info` printed against the facts (no use of the run)
         for n in names:
-            inf, truth = infos.get(n), truths[n]
+            inf, truth = infos.get(n), truths.get(n)
             has_calc = bool(bytask[n].calc_dep)
             if inf is None or inf['status'] in (None, 'ignored') or truth is None:
                 continue
@@ -1101,7 +1159,7 @@ class Runner:
             if has_calc:
                 depth = calc_depth(w, recs_run, tasks, t)
                 out.count('run-compare:calc-chain-depth-%d' % depth)
-            same_moment = info_recs[n] == {x: recs_run.get(x) for x in info_recs[n]}
+            same_moment = n in info_recs and info_recs[n] == {x: recs_run.get(x) for x in info_recs[n]}
             if has_calc and outcome[n] != 1 and n in rtasks:
                 # the Task object of the run against (a) the saved values, read from the raw records, (b) what `info` listed
                 used = task_ints([w.fileno(p) for p in rt.file_dep], rt.calc_dep, rt.task_dep)
@@ -1116,7 +1174,7 @@ class Runner:
                             n, attrs[n][1:], used[1:]), 'list-info-calc-dep-not-merged', dict(task=n))
                     else:
                         out.count('info-attributes-equal-run-task:depth-%d' % depth)
-            if letters.get(n) != outcome[n]:
+            if (shown is None or n in shown) and letters.get(n) != outcome[n]:
                 self.violation('`list --status` shows %s for task %s, the immediately following run %s' % (
                     'IURE?'[(letters.get(n) or 5) - 1], n, did[outcome[n] - 1]),
                     'list-info-calc-dep-not-merged' if has_calc else 'list-status-differs-from-run', dict(task=n))
@@ -1187,6 +1245,8 @@ class Runner:
                 w.doit(['reset-dep', step[1]])
             elif k == 'Probe':
                 self.probe(step[1])
+            elif k == 'Ask':
+                self.ask(list(step[1]))
             else:
                 raise ValueError(step)
         return self.cases
@@ -1677,6 +1737,7 @@ def gen_history(rng, n_ops, n_probes):
     shape = dict(group=rng.random() < 0.5, private=rng.random() < 0.5, calc=rng.random() < 0.4,
                  d_own=rng.choice([[], [0], [1, 2]]))
     h = [('SetChecker', rng.choice(['md5', 'md5', 'ts']))]
+    tail = rng.random() < 0.4           # ends with: ignore a task, switch the checker, ONE status query, the run
     for f in range(5):
         if rng.random() < 0.9 or f == 4:
             h.append(('Write', f, rng.randrange(5)))
@@ -1712,6 +1773,9 @@ def gen_history(rng, n_ops, n_probes):
             h.append(('ForgetAll',))
         if i in probes_at:
             h.append(('Probe', False))
+    if tail:
+        ck = [s_[1] for s_ in h if s_[0] == 'SetChecker'][-1]
+        h += ignore_switch_tail(rng, names, ck, shape['group'])
     h.append(('Probe', False))
     return shape, h
 
@@ -1742,6 +1806,45 @@ def scripted():
     hs.append((dict(group=True), [('SetDef', 0, D([0])), ('Probe', True)]))
     hs.append((dict(group=True, dangling=True), W + [('SetDef', 0, D([0])), ('Probe', False)]))
     return hs
+
+
+def ignore_switch_scripted():
+    """an ignore mark AND a changed file-checker setting before ONE status query, then the run (step Ask).  `run` looks at the
+    ignore mark before anything else (Runner.select_task): the task is skipped as ignored and its record -- saved by the other
+    checker, carrying the mark -- stays as it is; so `list -s` must show I, `info` must say ignored, and neither may touch the
+    record (the only write of get_status, the removal of a record saved by another checker, is written through at once by the
+    dbm backend).  Both directions (md5 -> timestamp, timestamp -> md5); the query is about the ignored task, about ANOTHER
+    task (whose own record may go: the documented invalidation), about everything, about the sub-tasks of an ignored group
+    and about one ignored sub-task.  After the first run of an Ask the other tasks are saved by the new checker while the ignored
+    one still carries the old one: the later queries of the same history see exactly one foreign record, the ignored one."""
+    T = ('bool', True)
+    W = [('Write', f, f) for f in range(3)]
+    hs = []
+    for a, b in (('md5', 'ts'), ('ts', 'md5')):
+        base = [('SetChecker', a)] + W + [('SetDef', 0, D([0])), ('SetDef', 1, D([1])), ('SetDef', 2, D([0, 1], utd=[T])), ('Run', [], [])]
+        # run; ignore T0; switch; list -s T0; run  (then info T0, everything, after one more switch back: the record is native again)
+        hs.append((dict(), base + [('Ignore', 'T0'), ('SetChecker', b), ('Ask', ['list', '-s', 'T0']), ('Ask', ['info', 'T0']),
+                                   ('Ask', ['list', '-s', '--all', '-p'])]))
+        # the same with `info` first, and `list -s` of ANOTHER task than the ignored one before that
+        hs.append((dict(), base + [('Ignore', 'T0'), ('SetChecker', b), ('Ask', ['list', '-s', 'T1', 'T2']), ('Ask', ['info', 'T0']),
+                                   ('Ask', ['list', '-s', 'T0', 'T1'])]))
+        # an ignored group: `doit ignore G` marks G and its sub-tasks; one ignored sub-task
+        hs.append((dict(group=True), base + [('Ignore', 'G'), ('SetChecker', b), ('Ask', ['list', '-s', '--all', 'G']), ('Ask', ['info', 'G:a']),
+                                             ('Ask', ['list', '-s', '--all', '-p'])]))
+        hs.append((dict(group=True), base + [('Ignore', 'G:b'), ('Ignore', 'T2'), ('SetChecker', b), ('Ask', ['info', 'G:b']),
+                                             ('Ask', ['list', '-s', '--all', 'G', 'T2'])]))
+    return hs
+
+
+def ignore_switch_tail(rng, names, ck, group):
+    """random histories: ... [Run]; Ignore n; SetChecker <the other one>; Ask <a status query>"""
+    n = rng.choice(names)
+    other = [x for x in names if x != n] or [n]
+    q = rng.choice([['list', '-s', n], ['info', n], ['list', '-s', '--all', '-p'], ['list', '-s', rng.choice(other)], ['list', '-s', n, rng.choice(other)],
+                    ['info', rng.choice(other)]])
+    if group and q[0] == 'list' and n == 'G':
+        q = ['list', '-s', '--all', 'G']
+    return ([('Run', [], [])] if rng.random() < 0.7 else []) + [('Ignore', n), ('SetChecker', 'ts' if ck == 'md5' else 'md5'), ('Ask', q)]
 
 
 # ------------------------------------------------------------------ chains / trees of calc_dep tasks
@@ -1844,11 +1947,16 @@ def gen_chain_history(rng, n_ops):
     # everything up-to-date (unless something is missing / ignored), then one modification of a file the consumers depend on
     h += [('Run', [], []), ('Probe', 'lite'), rng.choice([('Write', rng.randrange(4), rng.randrange(5)), ('Touch', rng.randrange(4)), ('Delete', rng.randrange(4))]),
           ('Probe', 'lite')]
+    if rng.random() < 0.3:
+        ck = [s_[1] for s_ in h if s_[0] == 'SetChecker'][-1]
+        h += ignore_switch_tail(rng, names, ck, False)
     return dict(chain=ch), h
 
 
 RULE = ('scripted histories (calc_dep, missing file_dep with changed dep / false uptodate / missing target, checker switch, ignore, forget, failed run, '
-        'result_dep, empty DB, dangling task_dep) + calc_dep chains / trees (calc tasks whose saved values name file_dep, task_dep and further calc_dep: '
+        'result_dep, empty DB, dangling task_dep) + ignore mark and checker switch before ONE status query and the run (run; ignore t; switch md5 <-> timestamp; '
+        'list -s / info of the ignored task, of another task, of everything, of the sub-tasks of an ignored group, of one ignored sub-task; the three backends, every seed; '
+        'the same as a tail of random histories) + calc_dep chains / trees (calc tasks whose saved values name file_dep, task_dep and further calc_dep: '
         'depth 1-3, diamonds, sharing, back / self references, repeats, a name that is not a task, a calc task with a calc_dep of its own, values '
         'that change between executions; scripted on the three backends + random worlds) + random histories (3 configurable tasks + optional group with 2 sub-tasks, private task, '
         'calc_dep pair; 5 dependency files, 3 targets; both checkers), backends in rotation; at each probe a sample (or all) of the read-only '
@@ -1868,6 +1976,7 @@ def run(ctx):
         raise RuntimeError('cannot build Model/Introspect.vo: ' + log[-1500:])
     rng = ctx.rng
     hs = [('scripted', s, h) for s, h in scripted()]
+    hs += [('ignore-switch', s, h) for s, h in ignore_switch_scripted()]      # (before the random ones: the shortest history is the replay)
     for i in range(ctx.n(7, 80)):
         s, h = gen_history(rng, rng.randrange(3, ctx.n(7, 12)), ctx.n(2, 3))
         hs.append(('random', s, h))
@@ -1885,6 +1994,8 @@ def run(ctx):
             todo = ('dbm', backends[hi % 3]) if backends[hi % 3] != 'dbm' else ('dbm', 'json')
         if kind == 'chain-scripted' and (hi - n_chain0 < 3 or not ctx.quick):
             todo = backends                  # the chain / diamond shapes on every backend
+        if kind == 'ignore-switch':
+            todo = backends                  # ignore mark + checker switch + one status query: every backend, every seed
         for b in todo:
             r = Runner(ctx, out, b, h, shape, kind)
             t_h = time.time()
